@@ -6,11 +6,9 @@ Theorems about `Verif.Model.Caps`: the concrete layer mirrors the storage layout
 (controllers by id, path → id-set index, id counter, published map, inbox); the abstract layer is the set
 of live controllers.  `Inv` (Proofs/Caps) is the refinement relation between the two.
 
-Full-strength statement of the refinement, not yet proved in this generality:
-  index_consistent : ∀ hist a, Inv ((runHist init hist).1 a)
-Proved below: `Inv` holds initially and is preserved by `issue` and `delete`, which under `Inv` never
-reach one of the `unreachable` panics of the Go code (`_partial`: the same for `retarget` — unrecord
-followed by record — and the lifting over the remaining operations and over histories are missing).
+`index_consistent`: the refinement holds in every account after every history of all operations
+(grouped into transactions, with aborts), and no history reaches one of the `unreachable` panics of the
+Go code.  `borrow_iff`: both directions of the borrow rule.
 -/
 namespace Verif.Properties.C25
 open Verif.Model.Caps Verif.Proofs.Caps
@@ -32,27 +30,55 @@ theorem ids_fresh (s : State) (a p : Nat) (ty : T) (h : Inv (s a)) :
     omega
   · simpa [State.set] using hinv
 
-/-- The path index enumerates exactly the live controllers targeting the path, without repetition —
-initially, after `issue` and after `delete` (which never reach an `unreachable` branch). -/
-theorem index_consistent_partial :
-    Inv {} ∧
-    (∀ (s : State) (a p : Nat) (ty : T), Inv (s a) →
-      ∃ s' o, step s (.issue a p ty) = .ok (s', o) ∧ Inv (s' a)) ∧
-    (∀ (s : State) (a id : Nat), Inv (s a) →
-      ∃ s' o, step s (.delete a id) = .ok (s', o) ∧ Inv (s' a)) := by
-  refine ⟨inv_init, ?_, ?_⟩
-  · intro s a p ty h
-    obtain ⟨s', h1, _, _, h4⟩ := ids_fresh s a p ty h
-    exact ⟨s', _, h1, h4⟩
-  · intro s a id h
-    cases hc : assocFind id (s a).ctrls with
-    | none => exact ⟨s, .nil, by simp [step, hc], h⟩
-    | some c =>
-      obtain ⟨i1, hu, hinv⟩ := delete_inv (s a) h id c hc
-      refine ⟨s.set a ⟨assocErase id (s a).ctrls, i1, (s a).nextId, (s a).published, (s a).inbox,
-        (s a).storage⟩, .done, ?_, ?_⟩
-      · simp only [step, hc, hu]
-      · simpa [State.set] using hinv
+/-- Every single operation (issue, retarget, delete, setTag, the queries, publish / unpublish / get /
+borrow, the inbox operations, save / load) keeps the refinement — the path index lists exactly the live
+controllers targeting the path, each once, and all ids are at most the counter — in every account, and
+never reaches one of the `unreachable` branches of the Go code. -/
+theorem index_consistent_step (s : State) (h : ∀ a, Inv (s a)) (op : Op) :
+    step s op ≠ .abort .internal ∧ ∀ s' o, step s op = .ok (s', o) → ∀ a, Inv (s' a) :=
+  step_inv s h op
+
+/-- `retarget` = unrecord at the old target + record at the new one: succeeds under the refinement
+(neither `unreachable` branch is taken), the controller now targets `p`, and it is listed for `p` and no
+longer for its old target (unless that is `p`). -/
+theorem retarget_consistent (s : State) (a id p : Nat) (c : Ctrl) (h : Inv (s a))
+    (hc : assocFind id (s a).live = some c) :
+    ∃ s', step s (.retarget a id p) = .ok (s', .done) ∧ Inv (s' a) ∧
+      assocFind id (s' a).live = some { c with target := p } ∧ id ∈ (s' a).idsAt p ∧
+      (c.target ≠ p → id ∉ (s' a).idsAt c.target) := by
+  simp only [Acct.live] at hc
+  obtain ⟨i1, i2, hu, hr, hinv⟩ := retarget_inv (s a) h id p c hc
+  refine ⟨s.set a { (s a) with ctrls := assocSet id { c with target := p } (s a).ctrls, index := i2 }, ?_, ?_, ?_, ?_, ?_⟩
+  · simp only [step, hc, hu, hr]
+  · simpa [State.set] using hinv
+  · simp [State.set, Acct.live, find_set_self]
+  · have := (hinv.consistent p id).2 ⟨_, find_set_self _ _ _, rfl⟩
+    simpa [State.set] using this
+  · intro hne hm
+    have hm' : id ∈ Acct.idsAt { (s a) with ctrls := assocSet id { c with target := p } (s a).ctrls, index := i2 } c.target := by
+      simpa [State.set] using hm
+    obtain ⟨c', hc', ht⟩ := (hinv.consistent c.target id).1 hm'
+    rw [find_set_self] at hc'
+    cases hc'
+    exact hne ht.symm
+
+/-- **Index consistency for all histories**: after any sequence of transactions over all operations
+(a transaction that aborts is rolled back), in every account the path index enumerates exactly the live
+controllers per target path, each once; and no transaction ends in an `unreachable` (internal) abort. -/
+theorem index_consistent (hist : List (List Op)) :
+    (∀ a, Inv ((runHist init hist).1 a)) ∧
+    (∀ a p id, id ∈ ((runHist init hist).1 a).idsAt p ↔
+        ∃ c, assocFind id ((runHist init hist).1 a).live = some c ∧ c.target = p) ∧
+    (∀ a p, (((runHist init hist).1 a).idsAt p).Nodup) ∧
+    ∀ o ∈ (runHist init hist).2, o.outcome ≠ some .internal := by
+  obtain ⟨h1, h2⟩ := runHist_inv hist init sinv_init
+  exact ⟨h1, fun a p id => (h1 a).consistent p id, fun a p => (h1 a).nodup p, h2⟩
+
+/-- Issued ids are never reused over a whole history: every live controller's id is at most the
+account's counter, and `issue` hands out counter + 1. -/
+theorem ids_fresh_hist (hist : List (List Op)) (a id : Nat) (c : Ctrl)
+    (h : assocFind id ((runHist init hist).1 a).live = some c) : id ≤ ((runHist init hist).1 a).nextId :=
+  ((runHist_inv hist init sinv_init).1 a).idsLe id c h
 
 /-- What `Inv` says: `getControllers(forPath: p)` / `forEachController` report exactly the live
 controllers whose target is `p`, each once. -/
@@ -96,18 +122,61 @@ theorem get_published_only (s : State) (a q : Nat) (w : T) (s' : State) (id : Na
             refine ⟨cap, c', hcap, h.2.1, ?_, by simpa using hcb, by simpa using hcb2⟩
             rw [← h.2.1]; exact hc'
 
-/-- `capabilities.borrow<&w>` yields a reference to the stored value whenever a capability is published
-at the path, its controller is live, `w` is related to the capability's and the controller's borrow type,
-and the target path stores a value whose type is a subtype of `w`.
-Partial: the converse direction (a reference is obtained only then) is the definition of `step` /
-`resolve` but is not stated as a theorem here. -/
-theorem borrow_if_partial (s : State) (a q : Nat) (w : T) (v : T × Int) (cap : Cap) (c : Ctrl)
-    (hq : assocFind q (s a).published = some cap) (hc : assocFind cap.id (s a).live = some c)
-    (h1 : canBorrow w cap.ty = true) (h2 : canBorrow w c.ty = true)
-    (hv : assocFind c.target (s a).storage = some v) (h3 : sub v.1 w = true) :
-    step s (.borrow a q w) = .ok (s, .ref (some v)) := by
-  simp only [Acct.live] at hc
-  simp [step, resolve, checkOk, hq, hc, h1, h2, hv, h3]
+/-- **Borrow rule, both directions**: `capabilities.borrow<&w>` at a public path yields a reference to
+the value `v` exactly when a capability is published at the path, its controller is live, `w` is related
+(sub- or supertype) to the capability's and to the controller's borrow type, the controller's target path
+stores `v`, and the type of `v` is a subtype of `w`.  The state is unchanged either way.
+(No authorizations in the stream's type universe: `CanBorrow`'s `PermitsAccess` part is trivially true.) -/
+theorem borrow_iff (s : State) (a q : Nat) (w : T) (v : T × Int) :
+    step s (.borrow a q w) = .ok (s, .ref (some v)) ↔
+      ∃ cap c, assocFind q (s a).published = some cap ∧ assocFind cap.id (s a).live = some c ∧
+        canBorrow w cap.ty = true ∧ canBorrow w c.ty = true ∧
+        assocFind c.target (s a).storage = some v ∧ sub v.1 w = true := by
+  constructor
+  · intro h
+    simp only [step] at h
+    split at h
+    · simp at h
+    · rename_i cap hcap
+      split at h
+      · simp at h
+      · rename_i c v' hres
+        simp only [Res.ok.injEq, Prod.mk.injEq, Obs.ref.injEq, true_and] at h
+        unfold resolve at hres
+        split at hres
+        · simp at hres
+        · rename_i hcb
+          split at hres
+          · simp at hres
+          · rename_i c' hc'
+            split at hres
+            · simp at hres
+            · rename_i hcb2
+              simp only [Option.some.injEq, Prod.mk.injEq] at hres
+              obtain ⟨hcc, hv'⟩ := hres
+              subst hcc
+              split at h
+              · rename_i hck
+                subst h
+                rw [← hv'] at hck
+                refine ⟨cap, c', hcap, hc', by simpa using hcb, by simpa using hcb2, hv'.symm ▸ rfl, ?_⟩
+                · cases hst : assocFind c'.target (s a).storage with
+                  | none => rw [hst] at hv'; cases hv'
+                  | some v0 =>
+                    rw [hst] at hv' hck
+                    cases hv'
+                    simpa [checkOk] using hck
+              · simp at h
+  · rintro ⟨cap, c, hq, hc, h1, h2, hv, h3⟩
+    simp only [Acct.live] at hc
+    simp [step, resolve, checkOk, hq, hc, h1, h2, hv, h3]
+
+/-- `borrow` never changes the state and never aborts. -/
+theorem borrow_pure (s : State) (a q : Nat) (w : T) : ∃ r, step s (.borrow a q w) = .ok (s, .ref r) := by
+  simp only [step]
+  split
+  · exact ⟨none, rfl⟩
+  · split <;> exact ⟨_, rfl⟩
 
 /-- A deleted (or never issued) controller makes the published capability unusable. -/
 theorem borrow_dead_controller (s : State) (a q : Nat) (w : T) (cap : Cap)
@@ -145,11 +214,13 @@ theorem inbox_claim (s s' : State) (a : Nat) (name : String) (provider : Nat) (w
 private def demo : List (List Op) :=
   [[.save 0 1 .s 7, .issue 0 1 .s, .publish 0 1 0, .inboxPublish 0 1 "x" 1],
    [.borrow 0 0 .any, .get 0 0 .s2, .inboxClaim 1 "x" 0 .any, .inboxClaim 1 "x" 0 .any, .getControllers 0 1],
-   [.delete 0 1, .getControllers 0 1, .borrow 0 0 .s]]
+   [.retarget 0 1 2, .getControllers 0 1, .getControllers 0 2, .borrow 0 0 .s, .save 0 2 .s2 9, .borrow 0 0 .any],
+   [.delete 0 1, .getControllers 0 2, .borrow 0 0 .s, .issue 0 2 .i]]
 
 example : (runHist init demo).2 =
     [⟨[.done, .id 1, .done, .done], none⟩,
      ⟨[.ref (some (.s, 7)), .got 0 false, .optId (some 1), .optId none, .ids [1]], none⟩,
-     ⟨[.done, .ids [], .ref none], none⟩] := by decide
+     ⟨[.done, .ids [], .ids [1], .ref none, .done, .ref (some (.s2, 9))], none⟩,
+     ⟨[.done, .ids [], .ref none, .id 2], none⟩] := by decide
 
 end Verif.Properties.C25
